@@ -1,7 +1,7 @@
 CONSTANTS
   NReq = 3
   Conns = {1, 2}
-  MaxSteps = 5
+  MaxSteps = 6
   Defects = {}
 SPECIFICATION Spec
 INVARIANTS NoMiscorrelation EmitCase
